@@ -108,3 +108,7 @@ mod tests {
         );
     }
 }
+
+#[cfg(kani)]
+#[path = "/verif/kani/segment.rs"]
+mod verif_kani;
